@@ -75,6 +75,10 @@ static const char* kCurated[] = {
     "a: x; b: a/M y",
     "a: x; b: a/S y",
     "a: x; b: y; c: a/M b/S x",
+    // must-follow key still in flight (or already complete) when its dependent is scanned, depending on completion order
+    "a: x; b: a/M; c: y ?0=*>b; d: a c",
+    // single-use request ahead of a value-dependent one; the late dependency can be redefined to point back
+    "t: s/S a ?1=0>b; s: x; a: y; b: z; b': t",
     // recomputed to identical value / forced change
     "a: x y %collapse; b: a",
     "a: x %force; b: a %collapse; c: b",
@@ -402,6 +406,31 @@ struct Explorer {
     }
   }
 
+  // The statement demands the same values and executed sets whatever the
+  // completion order. The recorded order of requests issued TOGETHER may
+  // legitimately depend on timing (a request whose key is still being scanned is
+  // recorded when it is resumed), so dependency lists are compared as multisets.
+  static std::string sortDepLists(const std::string& state) {
+    std::string out;
+    std::stringstream ss(state);
+    std::string line;
+    while (std::getline(ss, line)) {
+      auto p = line.find("deps=");
+      if (p != std::string::npos) {
+        std::string head = line.substr(0, p + 5), rest = line.substr(p + 5);
+        std::vector<std::string> items;
+        std::stringstream is(rest);
+        std::string it;
+        while (std::getline(is, it, ',')) if (!it.empty()) items.push_back(it);
+        std::sort(items.begin(), items.end());
+        line = head;
+        for (auto& x : items) line += x + ",";
+      }
+      out += line + "\n";
+    }
+    return out;
+  }
+
   // C06 (order): all schedules of the last build of each prefix yield the same outcome and state.
   void allSchedules(const History& h, long cap) {
     std::string firstKey, firstSummary, firstSched;
@@ -413,11 +442,12 @@ struct Explorer {
       if (o.dead) return;
       std::string sum = o.last.orderFreeSummary();
       outcomes.insert(sum);
-      if (!have) { have = true; firstKey = o.key; firstSummary = sum; firstSched = historyStr(hh); return; }
+      std::string okey = sortDepLists(o.key);
+      if (!have) { have = true; firstKey = okey; firstSummary = sum; firstSched = historyStr(hh); return; }
       if (n == 7) res.sample("{\"world\": " + vj::q(w.spec) + ", \"mode\": " + vj::q(mode.name) + ", \"schedule\": " + vj::q(historyStr(hh)) + ", \"outcome\": " + vj::q(sum) + "}");
-      if (sum != firstSummary || o.key != firstKey) {
+      if (sum != firstSummary || okey != firstKey) {
         res.violate(args.prop + ".outcome-differs",
-                    "schedule {" + historyStr(hh) + "} gives " + sum + (o.key != firstKey ? " (different engine state)" : "") +
+                    "schedule {" + historyStr(hh) + "} gives " + sum + (okey != firstKey ? " (different engine state)" : "") +
                         "; schedule {" + firstSched + "} gives " + firstSummary + " | world: " + w.spec,
                     mode.name + "|" + w.spec + "|" + historyStr(hh));
       }
@@ -491,7 +521,7 @@ static void exploreWorld(const std::string& spec, const std::string& modeName, v
     ex.bfs(T ? 5 : 4, T ? 1 : 0, 0, false);
   } else if (p == "C07") {
     ex.cfg.checkC01 = false; ex.cfg.checkC02 = false; ex.cfg.checkProto = false; ex.cfg.checkPersist = false;
-    ex.bfs(T ? 4 : 3, 1, 0, false);
+    ex.bfs(modeName.compare(0, 7, "@graphs") == 0 || spec.find("'") == std::string::npos ? (T ? 4 : 3) : (T ? 5 : 4), 1, 0, false);
   } else if (p == "C06") {
     ex.cfg.checkC02 = false; ex.cfg.checkPersist = false;
     // prefixes: every history of depth <= 2 (default schedules), then all schedules of a final build
@@ -503,6 +533,7 @@ static void exploreWorld(const std::string& spec, const std::string& modeName, v
     }
     std::vector<std::pair<History, uv::Ext>> level{{{}, e0}};
     int pd = T ? 3 : 2;
+    if (!T && w.derived.size() + w.leaves.size() > 5) pd = 1;  // the widest worlds: shorter prefixes in the quick tier
     std::set<std::string> seen;
     for (int d = 0; d <= pd; ++d) {
       std::vector<std::pair<History, uv::Ext>> next;
@@ -519,6 +550,19 @@ static void exploreWorld(const std::string& spec, const std::string& modeName, v
         if (args.overBudget()) { res.exhaustive = false; break; }
       }
       level.swap(next);
+    }
+    // Regardless of the prefix depth: build, change EVERY leaf, then all schedules
+    // of the rebuild (several inputs recomputing concurrently is where the order
+    // of completions matters most).
+    for (char root : w.derived) {
+      for (char first : w.derived) {
+        if (args.overBudget()) { res.exhaustive = false; break; }
+        History h;
+        Event b0; b0.kind = 'b'; b0.key = first; h.push_back(b0);
+        for (char x : w.leaves) { Event e; e.kind = 's'; e.key = x; e.val = 1; h.push_back(e); }
+        Event b1; b1.kind = 'b'; b1.key = root; h.push_back(b1);
+        ex.allSchedules(h, T ? 200000 : 20000);
+      }
     }
     res.count("states", (long long)seen.size() + 1);
   }
